@@ -10,6 +10,6 @@ package common
 //@   props C17 C14
 //@   nonblocking
 //@   ensures [sent-or-full] (err == nil && nsent(c) == old(nsent(c)) + 1 && lastsent(c) == req) || (err == ErrChanFull && nsent(c) == old(nsent(c)))
-//@   ensures [others] unchangedExcept("chan", c)
-//@   modifies chan
+//@   ensures [others] unchangedExcept("chan:*gossipv1.ObservationRequest", c)
+//@   modifies chan:*gossipv1.ObservationRequest
 //@   nopanic
